@@ -81,6 +81,15 @@ def run_history(r, hist, build, tag, extra_eval=None, env_apply=None):
             net[op[0]] = op[1]
             names.append(op[0])
         sig = '%s/ops=%s' % (tag, '>'.join(names))
+        # every parameter written so far reads back as the value it was given
+        for n_, v_ in net.items():
+            if n_ in live.fittingParameters:
+                try:
+                    back = float(live.fittingParameters[n_][2]())
+                except Exception:
+                    continue
+                r.check(back == float(v_) or abs(back - float(v_)) <= 1e-12 * abs(float(v_)), 'parameter-reads-back',
+                        'history-readback/%s/%s' % (tag, n_), param=n_, written=v_, read=back, hist=hist[:k + 1])
         try:
             got = ev(live)
         except Exception as e:
@@ -100,7 +109,10 @@ def run_history(r, hist, build, tag, extra_eval=None, env_apply=None):
         r.eq(got[2], want[2], 'history-independence-tau', 'history-tau/' + sig, rtol=1e-12, atol=1e-300,
              hist=hist[:k + 1])
         if extra_eval is not None:
-            extra_eval(r, live, fresh, sig)
+            if getattr(extra_eval, 'wants_net', False):
+                extra_eval(r, live, fresh, sig, dict(net))      # the settings as they were asked for
+            else:
+                extra_eval(r, live, fresh, sig)
         r.observe(got[1])
         if not ok:
             return
